@@ -69,8 +69,11 @@ SPEC = dict(
     runs=dict(
         quick=[_ix("values-flat", "values", "quick"), _ix("paths-flat", "paths", "quick"), _ix("scopes-recursive-and-ancestor", "scopes", "quick"),
                _ix("values-document-element", "root", "quick"), _ix("paths-document-element", "rootpaths", "quick"), _ix("growth", "growth", "quick")],
-        thorough=[_ix("values-flat", "values", "thorough"), _ix("paths-flat", "paths", "thorough"), _ix("scopes-recursive-and-ancestor", "scopes", "thorough"),
-                  _ix("values-document-element", "root", "thorough"), _ix("paths-document-element", "rootpaths", "thorough"), _ix("growth", "growth", "thorough")],
+        # per-run deadlines (seconds) keep the thorough tier inside its 25 min budget on an oversubscribed box: cases not started are counted
+        # as deadline_skipped and the evidence then says exhaustive:false.  Unloaded, the whole tier needs ~3950 CPU-seconds (~9 min on 8 cores).
+        thorough=[_ix("values-flat", "values", "thorough", "--deadline", 600), _ix("paths-flat", "paths", "thorough", "--deadline", 300),
+                  _ix("scopes-recursive-and-ancestor", "scopes", "thorough", "--deadline", 120), _ix("values-document-element", "root", "thorough", "--deadline", 240),
+                  _ix("paths-document-element", "rootpaths", "thorough", "--deadline", 90), _ix("growth", "growth", "thorough", "--deadline", 90)],
     ),
     manifest=dict(
         technique="bounded-exhaustive enumeration of identity-constraint definitions x all tuple lists up to a length bound, validated by the real parser "
